@@ -110,6 +110,11 @@ RegTxMarks(s, ev, t, ok) ==
      \cup If(Cardinality({ j \in DOMAIN MsgsOf(ev) : IsBuy(MsgsOf(ev)[j]) }) >= 2, "buy:two-in-one-tx")
      \cup If(ok /\ HasMsg(ev, {"WReg"}) /\ Len(s.wrk.ch) >= 1 /\ s.wrk.ch[Len(s.wrk.ch)].owner # ev.msgs[1].owner, "reg:second-owner")
 
+SameSecondLabel(T, w) ==
+  CASE T = "STopUp" -> (IF w = "before" THEN "topup:in-the-second-of-the-zero-time-before-it" ELSE "topup:in-the-second-of-the-zero-time-after-it")
+    [] T = "SClaim" -> (IF w = "before" THEN "claim:in-the-second-of-the-zero-time-before-it" ELSE "claim:in-the-second-of-the-zero-time-after-it")
+    [] T = "SRate" -> (IF w = "before" THEN "rate:in-the-second-of-the-zero-time-before-it" ELSE "rate:in-the-second-of-the-zero-time-after-it")
+    [] OTHER -> (IF w = "before" THEN "cancel:in-the-second-of-the-zero-time-before-it" ELSE "cancel:in-the-second-of-the-zero-time-after-it")
 StrTxMarks(s, ev, t, ok) ==
   LET HasS(m) == HasStream(s, m.receiver, m.sender)
       X(m) == StreamOf(s, m.receiver, m.sender)
@@ -127,10 +132,10 @@ StrTxMarks(s, ev, t, ok) ==
      \cup If(ok /\ AnyMsg(ev, LAMBDA m : m.t = "STopUp" /\ HasS(m) /\ X(m).dep > 0 /\ s.time < X(m).dzt /\ s.time - X(m).last >= 1000), "topup:live-with-elapsed-seconds")
      \cup If(ok /\ AnyMsg(ev, LAMBDA m : m.t = "STopUp" /\ HasS(m) /\ X(m).dep > 0 /\ s.time >= X(m).dzt), "topup:expired-with-remainder")
      \cup If(ok /\ AnyMsg(ev, LAMBDA m : m.t = "STopUp" /\ HasS(m) /\ X(m).dep = 0), "topup:drained")
-     \cup If(ok /\ AnyMsg(ev, LAMBDA m : m.t \in {"STopUp", "SClaim", "SRate", "SCancel"} /\ HasS(m) /\ X(m).dep > 0 /\ s.time < X(m).dzt
-                                       /\ s.time \div 1000 = X(m).dzt \div 1000), "stream:op-in-the-second-of-the-zero-time-before-it")
-     \cup If(ok /\ AnyMsg(ev, LAMBDA m : m.t \in {"STopUp", "SClaim", "SRate", "SCancel"} /\ HasS(m) /\ X(m).dep > 0 /\ s.time > X(m).dzt
-                                       /\ s.time \div 1000 = X(m).dzt \div 1000), "stream:op-in-the-second-of-the-zero-time-after-it")
+     \cup UNION { If(ok /\ AnyMsg(ev, LAMBDA m : m.t = T /\ HasS(m) /\ X(m).dep > 0 /\ s.time < X(m).dzt /\ s.time \div 1000 = X(m).dzt \div 1000),
+                      SameSecondLabel(T, "before"))
+                   \cup If(ok /\ AnyMsg(ev, LAMBDA m : m.t = T /\ HasS(m) /\ X(m).dep > 0 /\ s.time > X(m).dzt /\ s.time \div 1000 = X(m).dzt \div 1000),
+                      SameSecondLabel(T, "after")) : T \in {"STopUp", "SClaim", "SRate", "SCancel"} }
      \cup If(ok /\ AnyMsg(ev, LAMBDA m : m.t = "SCancel" /\ HasS(m) /\ X(m).dep > 0 /\ s.time < X(m).dzt /\ s.time - X(m).last >= 1000), "cancel:live-with-elapsed-seconds")
      \cup If(ok /\ AnyMsg(ev, LAMBDA m : m.t = "SCancel" /\ HasS(m) /\ X(m).dep > 0 /\ s.time >= X(m).dzt), "cancel:expired")
      \cup If(ok /\ AnyMsg(ev, LAMBDA m : m.t = "SCancel" /\ HasS(m) /\ X(m).dep = 0), "cancel:drained")
@@ -161,6 +166,22 @@ EndMarks0(s, t) ==
   \cup If(\E k \in {"wrk", "bcn"} : \E i \in DOMAIN s[k].ch : s[k].ch[i].limit > t[k].p.max /\ s[k].ch[i].limit <= s[k].p.max, "params:max-lowered-below-a-limit")
   \cup If(s.str.p # t.str.p /\ \E k \in DOMAIN s.str.s : s.str.s[k].dep > 0, "params:stream-fee-changed-with-funded-stream")
 
+(* operations whose outcome depends on a parameter that a rolled-back proposal once wrote (st.aux.ghostp) *)
+GhostEnt(s) == { g[2] : g \in { h \in s.aux.ghostp : h[1] = "ent" } }
+StatusesAfterTally(s) == LET u == EntBeginBlocker(s) IN [i \in DOMAIN u.ent.po |-> u.ent.po[i].st]
+GhostBeginMarks(s, t) ==
+  If(RaisedIdx(s) # {} /\ \E p \in GhostEnt(s) :
+        p # s.ent.p /\ StatusesAfterTally([t EXCEPT !.ent = s.ent, !.halted = FALSE]) # StatusesAfterTally([t EXCEPT !.ent = [s.ent EXCEPT !.p = p], !.halted = FALSE]),
+     "ghostparams:tally-outcome-would-differ")
+GhostParamTxMarks(s, ev, t, ok) ==
+     If(ok /\ \E g \in s.aux.ghostp : g[1] \in {"wrk", "bcn"} /\ g[2] # s[g[1]].p
+            /\ AnyMsg(ev, LAMBDA m : IsRegMsg(g[1], m)), "ghostparams:registry-op")
+  \cup If(ok /\ (\E g \in s.aux.ghostp : g[1] = "str" /\ g[2] # s.str.p)
+            /\ AnyMsg(ev, LAMBDA m : m.t \in {"SClaim", "SRate", "SCancel", "STopUp"} /\ HasStream(s, m.receiver, m.sender)
+                                     /\ StreamOf(s, m.receiver, m.sender).dep > 0 /\ s.time - StreamOf(s, m.receiver, m.sender).last >= 1000),
+          "ghostparams:stream-release")
+  \cup If(ok /\ GhostEnt(s) # {} /\ AnyMsg(ev, LAMBDA m : m.t = "Decide"), "ghostparams:decision")
+
 DueProps(s) == { i \in DOMAIN s.aux.props : s.aux.props[i].end <= s.time }
 EndMarks(s, t) ==
      If(\E i \in DueProps(s) : s.aux.props[i].yes /\ Len(s.aux.props[i].msgs) >= 2 /\ ~RunMsgs(s, s.aux.props[i].msgs, <<>>).ok
@@ -168,8 +189,8 @@ EndMarks(s, t) ==
   \cup EndMarks0(s, t)
 
 Marks(s, ev, t, ok) ==
-  CASE ev.a = "BeginBlock" -> BeginMarks(s, t)
-    [] ev.a = "DeliverTx" -> EntTxMarks(s, ev, t, ok) \cup FeeTxMarks(s, ev, t, ok) \cup RegTxMarks(s, ev, t, ok) \cup StrTxMarks(s, ev, t, ok) \cup GhostTxMarks(s, ev, t, ok)
+  CASE ev.a = "BeginBlock" -> BeginMarks(s, t) \cup GhostBeginMarks(s, t)
+    [] ev.a = "DeliverTx" -> EntTxMarks(s, ev, t, ok) \cup FeeTxMarks(s, ev, t, ok) \cup RegTxMarks(s, ev, t, ok) \cup StrTxMarks(s, ev, t, ok) \cup GhostTxMarks(s, ev, t, ok) \cup GhostParamTxMarks(s, ev, t, ok)
     [] ev.a = "EndBlock" -> EndMarks(s, t)
     [] OTHER -> {}
 
@@ -195,8 +216,12 @@ AllLabels == <<
   "create:reverse-direction-exists", "stream:two-ops-in-one-tx", "stream:multi-message-tx-fails",
   "ghost:registry-write-by-rolled-back-owner", "ghost:owner-write-on-reused-id", "ghost:registration-reuses-rolled-back-id",
   "ghost:decide-on-rolled-back-order-id", "ghost:raise-reuses-rolled-back-id", "ghost:stream-op-on-rolled-back-pair",
+  "ghostparams:tally-outcome-would-differ", "ghostparams:registry-op", "ghostparams:stream-release", "ghostparams:decision",
   "gov:proposal-rolled-back-after-first-message", "complete:two-same-purchaser",
-  "stream:op-in-the-second-of-the-zero-time-before-it", "stream:op-in-the-second-of-the-zero-time-after-it",
+  "topup:in-the-second-of-the-zero-time-before-it", "topup:in-the-second-of-the-zero-time-after-it",
+  "claim:in-the-second-of-the-zero-time-before-it", "claim:in-the-second-of-the-zero-time-after-it",
+  "rate:in-the-second-of-the-zero-time-before-it", "rate:in-the-second-of-the-zero-time-after-it",
+  "cancel:in-the-second-of-the-zero-time-before-it", "cancel:in-the-second-of-the-zero-time-after-it",
   "params:enterprise-changed-with-raised-order", "params:enterprise-changed-with-accepted-order", "params:signers-changed-with-decided-order",
   "params:registry-changed-with-registrations", "params:max-lowered-below-a-limit", "params:stream-fee-changed-with-funded-stream" >>
 RegBase == 100      \* TLCSet/TLCGet registers RegBase + index
